@@ -19,6 +19,8 @@ const (
 	edgeBase   = 1100000
 	wrapBase   = 1200000
 	nWrap      = 28
+	lateBase   = 1250000
+	nLate      = 30
 	corpusBase = 1500000
 	enumBase   = 2000000
 	enumStride = 1000000
